@@ -6,7 +6,7 @@
 (***************************************************************************)
 EXTENDS Integers, Sequences, FiniteSets, TLC, Json
 
-CONSTANTS MaxN, MaxP, MaxQ
+CONSTANTS Ns, Ps, Qs      \* sets of agent counts and of skew numerators / denominators
 VARIABLES n, p, q, dist, phase
 skvars == <<n, p, q, dist, phase>>
 
@@ -20,7 +20,7 @@ Weights(nn, pp, qq) ==
     IF nn = 1 THEN << <<1, 1>> >>
     ELSE LET total == SumRaw(nn, pp, qq, nn) IN [i \in 1 .. nn |-> <<RawNum(nn, pp, qq, i), total>>]
 
-Init == /\ n \in 1 .. MaxN /\ p \in 1 .. MaxP /\ q \in 1 .. MaxQ /\ dist = <<>> /\ phase = "args"
+Init == /\ n \in Ns /\ p \in Ps /\ q \in Qs /\ dist = <<>> /\ phase = "args"
 Compute == /\ phase = "args" /\ dist' = Weights(n, p, q) /\ phase' = "done" /\ UNCHANGED <<n, p, q>>
 Spec == Init /\ [][Compute]_skvars
 
@@ -35,7 +35,8 @@ SumsToOne  == Done => NumSum(dist, n) = dist[1][2]          \* common denominato
 (* the numerators (TLC integers are 32 bit: no cross products of products) *)
 CommonDen  == Done => \A i \in 1 .. n : dist[i][2] = dist[1][2]
 Arithmetic == Done => \A i \in 2 .. n - 1 : dist[i + 1][1] - dist[i][1] = dist[i][1] - dist[i - 1][1]
-LastIsSTimesFirst == Done /\ n >= 2 => dist[n][1] * q * dist[1][2] = p * dist[1][1] * dist[n][2]
+(* (all weights share one denominator: compare numerators; keeps the products within TLC's 32-bit integers) *)
+LastIsSTimesFirst == Done /\ n >= 2 => dist[n][2] = dist[1][2] /\ dist[n][1] * q = p * dist[1][1]
 SingleAgent == Done /\ n = 1 => dist = << <<1, 1>> >>
 Export == Done => PrintT("EXPORT " \o ToJson([n |-> n, p |-> p, q |-> q, dist |-> dist]))
 =============================================================================
